@@ -337,7 +337,21 @@ pub fn run(ctx: &Ctx, rep: &mut Report) {
                         }
                     })
                 };
+                let mk_self = |amount: i128, refund: bool| -> Call {
+                    let (a, r, t) = (gs.clone(), collector.clone(), tok.addr.clone());
+                    Rc::new(move |env: &Env| {
+                        let c = AxelarGasServiceClient::new(env, &a);
+                        let tk = Token { address: t.clone(), amount };
+                        if refund {
+                            flat(c.try_refund(&sstr(env, b"msg-1"), &r, &tk))
+                        } else {
+                            flat(c.try_collect_fees(&r, &tk))
+                        }
+                    })
+                };
                 let c_eps = vec![
+                    Ep { name: "gas-service.collect_fees(receiver=collector)".into(), role: "gas collector", call: mk_self(10, false), other_args: Some(mk_self(11, false)), beneficiary: None, prep: None },
+                    Ep { name: "gas-service.refund(receiver=collector)".into(), role: "gas collector", call: mk_self(10, true), other_args: Some(mk_self(11, true)), beneficiary: None, prep: None },
                     Ep { name: "gas-service.collect_fees".into(), role: "gas collector", call: mk(10, false), other_args: Some(mk(11, false)), beneficiary: Some(receiver.clone()), prep: None },
                     Ep { name: "gas-service.refund".into(), role: "gas collector", call: mk(10, true), other_args: Some(mk(11, true)), beneficiary: Some(receiver.clone()), prep: None },
                 ];
@@ -527,7 +541,7 @@ pub fn run(ctx: &Ctx, rep: &mut Report) {
     }
     for e in [
         "gateway.transfer_ownership", "gateway.upgrade", "gateway.migrate", "gateway.transfer_operatorship", "gateway.rotate_signers(bypass)", "gateway.rotate_signers(bypass,older-retained-set)",
-        "gas-service.transfer_ownership", "gas-service.upgrade", "gas-service.migrate", "gas-service.collect_fees", "gas-service.refund",
+        "gas-service.transfer_ownership", "gas-service.upgrade", "gas-service.migrate", "gas-service.collect_fees", "gas-service.refund", "gas-service.collect_fees(receiver=collector)", "gas-service.refund(receiver=collector)",
         "operators.transfer_ownership", "operators.upgrade", "operators.migrate", "operators.add_operator", "operators.remove_operator",
         "its.transfer_ownership", "its.upgrade", "its.migrate", "its.set_trusted_chain", "its.remove_trusted_chain",
         "interchain-token.transfer_ownership", "interchain-token.set_admin", "interchain-token.upgrade", "interchain-token.migrate",
@@ -536,6 +550,6 @@ pub fn run(ctx: &Ctx, rep: &mut Report) {
         req.push(format!("ep:{}", e));
     }
     rep.notes.insert("required".into(), json!(req));
-    rep.notes.insert("bounds".into(), json!({"contracts": CONTRACTS, "role_histories": HISTORIES, "entry_points": 29, "principals": ["holder", "each former holder", "holder of another role", "beneficiary named in the arguments", "stranger", "nobody", "holder but authorising other arguments"]}));
-    rep.notes.insert("rule".into(), json!("finite matrix enumerated completely: 29 administrative entry points (the delay bypass both with the newest and with an older retained signer set) (6 contracts) x 5 role-transfer histories (fresh, A->B, A->B->A, A->A, A->B->C; performed with the exact current holder's authorisation and checked with the role getters) x up to 8 principals. For each cell the authorisation forest the code asks for is recorded, then the call is replayed at a checkpoint with the forest signed by the chosen principal (or withheld, or recorded for other arguments); only the current holder's exact authorisation may succeed, every refused call is diffed against the pre-state. distinct = (entry point, history, principal class, outcome)"));
+    rep.notes.insert("bounds".into(), json!({"contracts": CONTRACTS, "role_histories": HISTORIES, "entry_points": 31, "principals": ["holder", "each former holder", "holder of another role", "beneficiary named in the arguments", "stranger", "nobody", "holder but authorising other arguments"]}));
+    rep.notes.insert("rule".into(), json!("finite matrix enumerated completely: 31 administrative entry points (the delay bypass both with the newest and with an older retained signer set; fee collection and refunds both to a third party and to the collector itself) (6 contracts) x 5 role-transfer histories (fresh, A->B, A->B->A, A->A, A->B->C; performed with the exact current holder's authorisation and checked with the role getters) x up to 8 principals. For each cell the authorisation forest the code asks for is recorded, then the call is replayed at a checkpoint with the forest signed by the chosen principal (or withheld, or recorded for other arguments); only the current holder's exact authorisation may succeed, every refused call is diffed against the pre-state. distinct = (entry point, history, principal class, outcome)"));
 }
